@@ -338,6 +338,7 @@ func doReplay(args []string) {
 		a.merge(wa)
 	}
 	writeSummary(a, *out)
+	runAtExit()
 	if a.Fatal != "" {
 		fmt.Fprintln(os.Stderr, "mxjconf:", a.Fatal)
 		os.Exit(2)
@@ -533,12 +534,23 @@ func doOne(args []string) {
 	}
 	f.replay(r.Case, a)
 	writeSummary(a, "-")
+	runAtExit()
 	if a.MisCount > 0 {
 		os.Exit(1)
 	}
 }
 
+// atExit: scratch areas of families, removed when the command ends
+var atExit []func()
+
+func runAtExit() {
+	for _, f := range atExit {
+		f()
+	}
+}
+
 func main() {
+	defer runAtExit()
 	if len(os.Args) < 2 {
 		names := []string{}
 		for k := range families {
